@@ -23,7 +23,7 @@ TECH = "contract-based deductive verification: symbolic execution of the real AS
 
 PROPS = {
     "C13": dict(
-        contracts=["c13"], level="proof",
+        contracts=["c13"], bounded=True, level="proof",
         explanation="fold-form (inductive) proof of Output.group_by_type_result against the filter/flatmap specification, unbounded in the number of entities",
         level_text="Output.group_by_type_result is proved, for flat lists of any length, to produce in every bucket exactly the order-preserving filter of the flat list by kind, "
                    "the concatenated comment texts, the six base buckets always and tablespaces/databases only when non-empty (loop base, inductive step with a generic entity, exit)",
@@ -31,8 +31,24 @@ PROPS = {
                    "filter-is-an-order-preserving-partition lemma are part of the trusted logic; Output.format's flat-list construction is covered under C03",
         technique=TECH,
     ),
+    "C01": dict(
+        contracts=["lexer"], bounded=True, level="other",
+        explanation="deductive: every word in a column-name position is typed ID and kept verbatim (lexer contract, all values, any nesting depth); "
+                    "BOUNDED deciding step: generated tables (ordered option lists x type/size/default forms x layouts, 1-4 tables x 1-9 columns) compared with the abstract schema",
+        level_text="column reproduction is decided by a bounded run-level contract over generated schemas; the token-typing part that decides name vs keyword is proved for all values",
+        level_note="grammar actions for column/defcolumn are not yet under contract in this revision (bounded only); LALR alternative selection and the regex pre-processor are observed, not proved",
+        technique="contract-based deductive verification of the lexer context + bounded run-time contract on DDLParser.run (generated schemas)",
+    ),
+    "C03": dict(
+        frames=["lexer-reset-complete", "tables-append-only"], bounded=True, level="other",
+        explanation="deductive (frames): every lexer flag written while lexing is reset before each statement parse, the reset precedes every parse, results accumulate by append only; "
+                    "BOUNDED deciding step for the textual part: ordered pairs / triples of statement units and unsupported statements inserted at every position vs concatenation of single-statement results",
+        level_text="independence of statements: per-statement reset and append-only accumulation are proved as frame obligations; line-based statement assembly (regexes) is decided by a bounded concatenation contract",
+        level_note="line splitting and comment/quote regexes are outside the deductive reach (look-arounds); PLY's per-parse state reset is A-PLY-LR",
+        technique="contract-based deductive verification: frame obligations (static analysis of the real ASTs) + bounded run-time contract (concatenation oracle)",
+    ),
     "C06": dict(
-        contracts=["c06"], frames=["normalize-only-in-p_id"], level="proof",
+        contracts=["c06", "lexer"], frames=["normalize-only-in-p_id"], level="proof",
         explanation="p_id: verbatim copy with the flag off, exactly one outer delimiter pair stripped with it on, in every lexer context; normalize_names is read nowhere else (frame)",
         level_text="the single id production is proved for all identifier strings and all lexer contexts to copy the token verbatim (flag off) or strip exactly one outer delimiter pair (flag on); "
                    "a frame obligation shows normalize_names is read nowhere else, so every other value is independent of the flag",
@@ -40,7 +56,7 @@ PROPS = {
         technique=TECH,
     ),
     "C14": dict(
-        frames=["init-before-use", "class-level-state", "file-path-only-under-dump"], level="proof",
+        frames=["init-before-use", "class-level-state", "file-path-only-under-dump"], bounded=True, level="proof",
         explanation="frame obligations over the real ASTs: every instance attribute written on the run() path is definitely assigned before use in each run (must-analysis with per-method summaries, "
                     "PLY callbacks = any t_*/p_* method), no class-level mutable state is mutated through instances, file-system calls only under `if dump`",
         level_text="static frame / definite-assignment obligations over the real source: no parser state is carried from one run() to the next, no class-level mutable state, no file access unless dump is requested",
@@ -56,7 +72,7 @@ PROPS = {
         technique="contract-based deductive verification: frame / global-purity obligations decided by static analysis of the real ASTs",
     ),
     "C16": dict(
-        contracts=["c16"], frames=["silent-only-in-p_error"], level="proof",
+        contracts=["c16"], frames=["silent-only-in-p_error"], bounded=True, level="proof",
         explanation="p_error raises DDLParserError iff not silent; t_error always raises the library's exception; run() raises SimpleDDLParserException for every unknown mode; "
                     "frame: `silent` is read only in p_error and in the exception handler of parse_statement, so both settings execute identical paths on input that does not reach an error callback",
         level_text="error callbacks proved against their contracts for all tokens and lexer contexts; frame obligation shows the silent flag cannot influence anything but error reporting",
@@ -64,7 +80,7 @@ PROPS = {
         technique=TECH,
     ),
     "C17": dict(
-        contracts=["c17"], level="proof",
+        contracts=["c17", "lexer"], bounded=True, level="proof",
         explanation="function-level contracts on the sequence productions (exact key, exact integer, frame on every other key)",
         level_text="every production alternative of the CREATE SEQUENCE fragment is proved, for all option values and all prior option states, "
                    "to set exactly its documented key to the exact integer / False / True and to leave every other key untouched",
